@@ -670,6 +670,9 @@ func inetBytes(ip string) []byte {
 	return p
 }
 
+// SetDSEVersion changes what the nodes report as dse_version from now on (a node of another kind takes over).
+func (cl *Cluster) SetDSEVersion(v string) { cl.mu.Lock(); cl.DSEVersion = v; cl.mu.Unlock() }
+
 func (cl *Cluster) systemRows(self *Node, local bool) message.Message {
 	cl.mu.Lock()
 	defer cl.mu.Unlock()
